@@ -667,6 +667,22 @@ func registerStdIntrinsics(c func(string, intrinsicImpl)) {
 	// ---- fmt / log: opaque ----
 	fmtS := func(m *Machine, fr *frame, args []value) value {
 		if s, ok := args[0].(strV); ok && s.concrete() {
+			// all-concrete basic arguments: format for real (file names, keys)
+			if va, ok := args[1].(sliceV); ok {
+				var nat []interface{}
+				good := true
+				for _, a := range va.elems() {
+					n, ok := m.nativeBasic(a)
+					if !ok {
+						good = false
+						break
+					}
+					nat = append(nat, n)
+				}
+				if good {
+					return strV{s: fmt.Sprintf(s.s, nat...)}
+				}
+			}
 			return strV{s: "<fmt:" + s.s + ">"}
 		}
 		return strV{s: "<fmt>"}
@@ -756,11 +772,7 @@ func registerStdIntrinsics(c func(string, intrinsicImpl)) {
 		if len(a) != len(b) {
 			return m.c.False
 		}
-		r := m.c.True
-		for i := range a {
-			r = m.c.And(r, m.c.Eq(a[i], b[i]))
-		}
-		return r
+		return m.seqEq(a, b)
 	})
 	bcmp := func(m *Machine, fr *frame, args []value) value {
 		a, b := mkStr(m.bytesOf(args[0])), mkStr(m.bytesOf(args[1]))
@@ -895,6 +907,53 @@ func registerStdIntrinsics(c func(string, intrinsicImpl)) {
 	// ---- sort ----
 	c("sort.Slice", func(m *Machine, fr *frame, args []value) value { m.sortSlice(fr, args[0], args[1]); return nil })
 	c("sort.SliceStable", func(m *Machine, fr *frame, args []value) value { m.sortSlice(fr, args[0], args[1]); return nil })
+}
+
+// nativeBasic converts a boxed concrete value of basic type to the native Go value.
+func (m *Machine) nativeBasic(a value) (interface{}, bool) {
+	it, ok := a.(iface)
+	if !ok || it.t == nil {
+		return nil, false
+	}
+	b, ok := it.t.Underlying().(*types.Basic)
+	if !ok {
+		return nil, false
+	}
+	switch v := it.v.(type) {
+	case strV:
+		if v.concrete() && b.Info()&types.IsString != 0 {
+			return v.s, true
+		}
+	case *smt.Term:
+		if !v.IsConst() {
+			return nil, false
+		}
+		switch b.Kind() {
+		case types.Bool:
+			return v.IsTrue(), true
+		case types.Int:
+			return int(v.Int64()), true
+		case types.Int8:
+			return int8(v.Int64()), true
+		case types.Int16:
+			return int16(v.Int64()), true
+		case types.Int32:
+			return int32(v.Int64()), true
+		case types.Int64:
+			return v.Int64(), true
+		case types.Uint:
+			return uint(v.Uint64()), true
+		case types.Uint8:
+			return uint8(v.Uint64()), true
+		case types.Uint16:
+			return uint16(v.Uint64()), true
+		case types.Uint32:
+			return uint32(v.Uint64()), true
+		case types.Uint64, types.Uintptr:
+			return v.Uint64(), true
+		}
+	}
+	return nil, false
 }
 
 var errorIface = types.Universe.Lookup("error").Type().Underlying().(*types.Interface)
